@@ -8,6 +8,18 @@ import time
 from .gen import Gen, Undecided, VERIF
 
 BUILD = os.path.join(VERIF, 'build')
+_RUNDIR = None
+
+
+def _rundir():
+    global _RUNDIR
+    if _RUNDIR is None:
+        import atexit, shutil, tempfile
+        os.makedirs(BUILD, exist_ok=True)
+        _RUNDIR = tempfile.mkdtemp(prefix=f'run-{os.getpid()}-', dir=BUILD)
+        atexit.register(lambda: shutil.rmtree(_RUNDIR, ignore_errors=True))
+    return _RUNDIR
+
 
 FAIL_MSG = [
     ('postcondition not satisfied', 'postcondition'),
@@ -78,9 +90,18 @@ def run_unit(unit, twin=False, rlimit=None, threads=2, auto_fns=None, _depth=0, 
     res.stubbed = dict(g.stub_reasons)
     os.makedirs(BUILD, exist_ok=True)
     name = unit + ('.twin' if twin else '')
-    path = os.path.join(BUILD, name + '.rs')
+    # one private directory per process: several checks may run at the same time (they used to overwrite each other's views)
+    rundir = _rundir()
+    path = os.path.join(rundir, name + '.rs')
     with open(path, 'w') as f:
         f.write(text)
+    try:  # a copy under the stable name, for inspection only
+        tmp = os.path.join(BUILD, f'.{name}.{os.getpid()}.tmp')
+        with open(tmp, 'w') as f:
+            f.write(text)
+        os.replace(tmp, os.path.join(BUILD, name + '.rs'))
+    except OSError:
+        pass
     import hashlib
     res.gen_sha = hashlib.sha256(text.encode()).hexdigest()
     res.gen_path = path
@@ -90,7 +111,7 @@ def run_unit(unit, twin=False, rlimit=None, threads=2, auto_fns=None, _depth=0, 
         cmd += ['--rlimit', str(rlimit)]
     res.cmd = ' '.join(cmd)
     try:
-        p = subprocess.run(cmd, capture_output=True, text=True, timeout=900, cwd=BUILD)
+        p = subprocess.run(cmd, capture_output=True, text=True, timeout=900, cwd=rundir)
     except subprocess.TimeoutExpired:
         res.undecided.append('verus timed out after 900 s')
         return res
